@@ -496,6 +496,52 @@ fn run_op(w: &mut World, f: &[&str]) -> St {
             if let Err(e) = r { std::panic::resume_unwind(e); }
             St::Ok(String::new())
         }
+        // re-entrant user code: `T::clone`, called by the library in the middle of make_mut / make_unique / unwrap_or_clone,
+        // uses ANOTHER handle in slot k: drops it, reads the count through it, or asks it for `get_mut`
+        "makeMutH" | "makeUniqueH" | "unwrapOrCloneH" if (f[0] == "unwrapOrCloneH" && n == 4) || (f[0] != "unwrapOrCloneH" && n == 5) => {
+            let s = idx!(f[1]);
+            let (v, k, act) = if f[0] == "unwrapOrCloneH" { (0u32, idx!(f[2]), f[3]) } else { (match f[2].parse() { Ok(x) => x, Err(_) => bad!() }, idx!(f[3]), f[4]) };
+            match (&w.slots[s], f[0]) { (A(_), _) | (O(_), "makeMutH") => {} _ => bad!() }
+            if k == s || w.is_empty(k) || !matches!(act, "drop" | "cnt" | "getmut") { bad!(); }
+            if !matches!(w.slots[k], A(_) | O(_) | U(_)) { bad!(); }
+            if act == "getmut" && !matches!(w.slots[k], A(_)) { bad!(); }
+            let wp: *mut World = w;
+            let res: std::rc::Rc<std::cell::RefCell<String>> = std::rc::Rc::new(std::cell::RefCell::new("-".to_string()));
+            let res2 = res.clone();
+            let act_s = act.to_string();
+            set_clone_hook(Some(Box::new(move || unsafe {
+                let w2 = &mut *wp;
+                let r = match act_s.as_str() {
+                    "drop" => { let h = w2.take(k); take_back_and_drop(h); "dropped".to_string() }
+                    "cnt" => match &w2.slots[k] {
+                        A(a) => format!("cnt:{}", cnts(&[Arc::count(a), Arc::strong_count(a)])),
+                        O(o) => format!("cnt:{}", cnts(&[OffsetArc::strong_count(o)])),
+                        U(u) => format!("cnt:{}", cnts(&[ArcUnion::strong_count(u)])),
+                        _ => "cnt:?".to_string(),
+                    },
+                    _ => match &mut w2.slots[k] { A(a) => (if Arc::get_mut(a).is_some() { "mut:some" } else { "mut:none" }).to_string(), _ => "mut:?".to_string() },
+                };
+                let _u = Unrec::new();
+                *res2.borrow_mut() = r;
+            })));
+            let mut val = String::new();
+            let r = catch_unwind(AssertUnwindSafe(|| unsafe {
+                let w3 = &mut *wp;
+                if f[0] == "unwrapOrCloneH" {
+                    if let A(a) = w3.take(s) { let t = lib(|| Arc::unwrap_or_clone(a)); val = format!("val={};", show_t(&t)); unrecorded(|| w3.graveyard.push(t)); }
+                } else {
+                    lib(|| match &mut w3.slots[s] {
+                        A(a) => if f[0] == "makeMutH" { Arc::make_mut(a).set_val(v) } else { Arc::make_unique(a).set_val(v) },
+                        O(o) => o.make_mut().set_val(v),
+                        _ => {}
+                    });
+                }
+            }));
+            set_clone_hook(None);
+            if let Err(e) = r { std::panic::resume_unwind(e); }
+            let h = res.borrow().clone();
+            St::Ok(format!("{}hook={}", val, h))
+        }
         "tryUnwrap" if n == 2 => {
             let s = idx!(f[1]);
             if !matches!(w.slots[s], A(_)) { bad!(); }
